@@ -190,6 +190,11 @@ def extract(repo):
             not re.search(r'stream::write\(\s*&mut\s+self\.control_send\s*,\s*Frame::Goaway\(\s*max_id\.into\(\)\s*\)\s*\)', body):
         raise AnchorLost('ConnectionInner::shutdown: store / write')
     f['shutdown_sets_closing'] = bool(re.search(r'self\.set_closing\(\)', body))
+    # the identifier is recorded BEFORE the write is awaited (a write that is pending, fails or is abandoned
+    # leaves the limit in force) - statement order, not just presence
+    st_at = re.search(r'\*sent_closing\s*=\s*Some\(max_id\)\s*;', body).start()
+    wr_at = re.search(r'stream::write\(\s*&mut\s+self\.control_send', body).start()
+    f['store_before_write'] = st_at < wr_at
 
     body, spans['process_goaway'] = cn.fn_body('process_goaway')
     m = re.search(r'if\s+let\s+Some\(prev_id\)\s*=\s*recv_closing\.map\(VarInt::from\)\s*\{\s*if\s+prev_id\s*(\S+)\s*id\s*\{(.*?)\}\s*\}', body, re.S)
@@ -235,6 +240,26 @@ def extract(repo):
         raise AnchorLost('send_request: poll_open_bidi')
     f['closing_test_first'] = (0 <= a < b) and bool(re.search(
         r'if\s+let\s+Some\(error\)\s*=\s*self\.check_peer_connection_closing\(\)\s*\{\s*return\s+Err\(error\)\s*;', body))
+    # the second closing test, between poll_open_bidi and the first write on the new stream
+    wpos = body.find('stream::write(', b)
+    if wpos < 0:
+        raise AnchorLost('send_request: stream::write')
+    mid = re.sub(r'\s+', '', body[b:wpos])
+    r2 = re.search(r'ifletSome\(error\)=self\.check_peer_connection_closing\(\)\{(.*?)returnErr\(error\);\}', mid)
+    if r2:
+        f['closing_retest_after_open'] = True
+        rc = re.fullmatch(r'quic::SendStream::<B>::reset\(&mutstream,Code::(\w+)\.value\(\)\);', r2.group(1))
+        if rc:
+            f['closing_retest_reset'] = rc.group(1)
+        elif r2.group(1) == '':
+            f['closing_retest_reset'] = None
+        else:
+            raise AnchorLost('send_request: statements of the second closing test: ' + r2.group(1))
+    elif 'check_peer_connection_closing' in mid or 'is_closing' in mid:
+        raise AnchorLost('send_request: unrecognised closing test after poll_open_bidi')
+    else:
+        f['closing_retest_after_open'] = False
+        f['closing_retest_reset'] = None
     ce = Source(repo + '/h3/src/error/connection_error_creators.rs')
     body, spans['check_peer_connection_closing'] = ce.fn_body('check_peer_connection_closing')
     f['closing_test_reads_flag'] = bool(re.search(r'if\s+self\.is_closing\(\)\s*\{\s*return\s+Some\(StreamError::RemoteClosing\)', body))
@@ -299,6 +324,7 @@ def render(f):
          'Definition guard_present : bool := %s.' % b(f['guard_present']),
          'Definition guard_cmp : cmpop := %s.' % f['guard_cmp'],
          'Definition shutdown_sets_closing : bool := %s.' % b(f['shutdown_sets_closing']),
+         'Definition store_before_write : bool := %s.' % b(f['store_before_write']),
          '(* ConnectionInner::process_goaway *)',
          'Definition order_present : bool := %s.' % b(f['order_present']),
          'Definition order_cmp : cmpop := %s.' % f['order_cmp'],
@@ -310,7 +336,10 @@ def render(f):
          'Definition kind_code : N := %s.' % f['kind_code'],
          'Definition client_processes : bool := %s.' % b(f['client_processes']),
          'Definition closing_test_first : bool := %s.' % b(f['closing_test_first']),
-         'Definition closing_test_reads_flag : bool := %s.' % b(f['closing_test_reads_flag'])]
+         'Definition closing_test_reads_flag : bool := %s.' % b(f['closing_test_reads_flag']),
+         '(* ... and again after poll_open_bidi, before anything is written on the new stream *)',
+         'Definition closing_retest_after_open : bool := %s.' % b(f['closing_retest_after_open']),
+         'Definition closing_retest_reset_code : option N := %s.' % code(f['closing_retest_reset'])]
     return '\n'.join(L) + '\n'
 
 
